@@ -6,6 +6,7 @@ import (
 	"math"
 	"reflect"
 	"strconv"
+	"strings"
 	"unicode/utf16"
 )
 
@@ -881,6 +882,18 @@ func (v Value) toReflectValue(typ reflect.Type) (reflect.Value, error) {
 
 	// FIXME Should this end up as a TypeError?
 	panic(fmt.Errorf("invalid conversion of %v (%v) to reflect.Type: %v", v.kind, v, typ))
+}
+
+// panicStoreError turns a conversion failure of a store into a bridged Go
+// container (see toReflectValue, stringToReflectValue) into a JavaScript
+// exception, so that the script can catch it and Run returns it as an error
+// instead of letting a plain Go error escape as a Go panic.
+func (rt *runtime) panicStoreError(err error) *exception {
+	msg := err.Error()
+	if rest, ok := strings.CutPrefix(msg, "RangeError: "); ok {
+		return rt.panicRangeError(rest)
+	}
+	return rt.panicTypeError(strings.TrimPrefix(msg, "TypeError: "))
 }
 
 func stringToReflectValue(value string, kind reflect.Kind) (reflect.Value, error) {
